@@ -86,7 +86,15 @@ def run(chk, facts, tier):
                     if d.c and strip_casts(d.c[0]).is_call('read_16bit'):
                         a0 = strip_casts(strip_casts(d.c[0]).args()[0])
                         prov_ok = a0.k == 'BinaryOperator' and a0.o == '+' and is_name(a0.c[0], 'input') and cval(a0.c[1]) == 1
+            # "the last valid client MTU": every valid request takes effect - no further condition on the store
+            extra = [(l, op, r) for l, op, r in ats if not isinstance(l, int) and not (is_name(l, 'in_size') or same_expr(l, arg) or mentions(l, 'in_size') or (arg.n and mentions(l, arg.n)))]
             ok = size_ok and val_ok and prov_ok
+            if ok and extra:
+                chk.instance('client-mtu-guard', fn, 'client_mtu(%s) for every valid request' % arg.text(), False,
+                             'a valid Exchange MTU Request changes the MTU only if also `%s %s %s`: the MTU in use is then not the minimum of the server maximum and the last valid client MTU' % (
+                                 extra[0][0].text()[:50], extra[0][1], extra[0][2] if isinstance(extra[0][2], int) else extra[0][2].text()[:20]), node=c, key='client_mtu(mtu) exact')
+            elif ok:
+                chk.instance('client-mtu-guard', fn, 'client_mtu(%s) for every valid request' % arg.text(), True, '', node=c, key='client_mtu(mtu) exact')
             chk.instance('client-mtu-guard', fn, 'client_mtu(%s)' % arg.text(), ok,
                          '' if ok else 'in_size==3 guard: %s, value >= 23 guard: %s (lower bound %s), value read from input+1: %s' % (size_ok, val_ok, lb, prov_ok),
                          node=c, key='client_mtu(mtu)')
